@@ -443,6 +443,26 @@ def _known_instance(value: Value, typ: type, ctx: CanAssignContext) -> list[bool
     ]
 
 
+# An f-string field calls type(x).__format__; % formatting never does (it calls str() or int()).
+_BUILTIN_FORMAT_METHODS = frozenset(
+    typ.__format__ for typ in (object, str, int, float, complex)
+)
+
+
+def _may_override_format(value: Value) -> bool:
+    """Whether some possible value is known to be of a type with its own __format__."""
+    for val in flatten_values(value, unwrap_annotated=True):
+        if isinstance(val, AnyValue):
+            continue
+        typ = val.get_type()
+        if (
+            isinstance(typ, type)
+            and getattr(typ, "__format__", None) not in _BUILTIN_FORMAT_METHODS
+        ):
+            return True
+    return False
+
+
 def maybe_replace_with_fstring(
     fs: PercentFormatString, args_node: ast.expr, args: Value, ctx: CanAssignContext
 ) -> Optional[ast.expr]:
@@ -503,13 +523,22 @@ def maybe_replace_with_fstring(
         if raw_piece:
             parts.append(ast.Constant(value=raw_piece))
         format_spec = None
+        conversion = -1
         if specifier.conversion_type == "d":
             # %d turns True into 1 and 2.5 into 2; "{x:d}" does so only for an int
             if not all(_known_instance(value, int, ctx)):
                 return None
+            # an int subclass with its own __format__ would be asked to format itself
+            if _may_override_format(value):
+                return None
             format_spec = ast.JoinedStr(values=[ast.Constant(value="d")])
+        elif _may_override_format(value):
+            # "{x!s}" is str(x), which is what %s gives
+            conversion = ord("s")
         parts.append(
-            ast.FormattedValue(substitution, conversion=-1, format_spec=format_spec)
+            ast.FormattedValue(
+                substitution, conversion=conversion, format_spec=format_spec
+            )
         )
     if fs.raw_pieces[-1]:
         parts.append(ast.Constant(value=fs.raw_pieces[-1]))
